@@ -5,6 +5,8 @@
 //   hash    message digest / HMAC over 1..5 messages fed in arbitrary chunks through ONE object == OpenSSL EVP_Digest / HMAC()
 //   cbc     AES-128/192/256-CBC: cipher text == EVP_aes_*_cbc (no padding), decrypt(encrypt(x)) == x (fresh object, same object,
 //           piecewise), and the "first block absorbs the unknown IV" reliance of the session cipher
+//   cbcreuse one cbc object for 1..6 messages with set_iv / no set_iv / set_iv twice / set_key(same key) between them: an encrypt-only,
+//           a separate decrypt-only and a both-directions object live through the same history; every message == EVP with the IV in force
 //   cookie  hmac_cipher / aes_cipher / aes_factory output is decoded by an independent reference decoder (= another build/node),
 //           and cookies made by the reference encoder are accepted
 //   key     hexadecimal key parsing (strings, files with trailing blanks) against a reference parser, strict rejection
@@ -396,6 +398,146 @@ static Outcome p_cbc(CCase const &c) {
     return ok();
 }
 
+// ---- one cbc object used for several messages: a history of set_iv / set_key / encrypt / decrypt calls --------------------------
+// Three objects live through the same history: E only encrypts, D (a separate object, "the other node") only decrypts and is fed with
+// cipher text made by the reference, S encrypts and decrypts every message itself.  After set_iv(iv) the next message must be
+// AES-CBC(key, iv, .) however much the object was used before.  Without a set_iv between two messages crypto.h promises nothing
+// explicit: the implementations continue the chain (IV = last cipher block), a restart from the configured IV would be the only
+// other reading -- either is accepted for the first block, the rest of the message is determined anyway, and E/D/S must agree.
+struct RStep {
+    int op = 1;                 // before the message: 0 nothing, 1 set_iv(iv), 2 set_iv(junk) then set_iv(iv), 3 set_key(same key) again,
+                                // 4 set_key(same key) again then set_iv(iv).  The first message always gets an IV (0,3 -> 1; 4 -> 1).
+    std::string iv, junk;
+    Msg plain;                  // cuts = block indices where one encrypt()/decrypt() call ends
+};
+struct RCase {
+    int type = 0, how = 0, dirs = 7;    // dirs: 1 = encrypt-only object, 2 = decrypt-only object, 4 = one object for both directions
+    std::string key;
+    std::vector<RStep> steps;
+    void encode(vr::CaseWriter &w) const {
+        w.i(type).i(how).i(dirs).s(key).i((long long)steps.size()).nl();
+        for (auto &st : steps) { w.i(st.op).s(st.iv).s(st.junk); st.plain.encode(w); w.nl(); }
+    }
+    static RCase decode(vr::CaseReader &r) {
+        RCase c; c.type = (int)(((r.i() % 3) + 3) % 3); c.how = (int)r.i(); c.dirs = (int)r.i() & 7; c.key = r.s(); long n = (long)r.i();
+        for (long i = 0; i < n && i < 32; i++) { RStep st; st.op = (int)(((r.i() % 5) + 5) % 5); st.iv = r.s(); st.junk = r.s(); st.plain = Msg::decode(r); c.steps.push_back(st); }
+        return c;
+    }
+};
+static std::string xor16(std::string a, std::string const &b, std::string const &c) { for (size_t i = 0; i < 16 && i < a.size() && i < b.size() && i < c.size(); i++) a[i] = char(a[i] ^ b[i] ^ c[i]); return a; }
+struct ReuseObj {
+    std::unique_ptr<cr::cbc> o;
+    std::string configured, chain;      // model: IV last given to set_iv; last cipher block that went through this object
+    int refused = 0;
+    // returns true when the IV of the next message is definite (a set_iv was issued)
+    bool prepare(RStep const &st, bool first, int type, int how, std::string const &key) {
+        int op = st.op;
+        if (first) {
+            op = (op == 2) ? 2 : 1;
+            o = make_cbc(type, how);
+            if (!o.get()) return true;
+            if (!(how & 8)) o->set_key(cr::key(key.data(), key.size()));
+        } else if (op == 3 || op == 4) {
+            try { o->set_key(cr::key(key.data(), key.size())); } catch (std::exception const &) { refused++; }   // same key: refused or harmless
+        }
+        if (op == 2) o->set_iv(st.junk.data(), st.junk.size());
+        if (op == 1 || op == 2 || op == 4) { o->set_iv(st.iv.data(), st.iv.size()); configured = st.iv; }
+        if (first && (how & 8)) o->set_key(cr::key(key.data(), key.size()));
+        return op == 1 || op == 2 || op == 4;
+    }
+};
+static Outcome p_cbc_reuse(RCase const &c) {
+    VR.eval();
+    if (c.steps.empty() || c.key.size() != KEYSZ[c.type] || !(c.dirs & 7)) { VR.cls("cbc.reuse.malformed_case_skipped"); return ok(); }
+    for (auto &st : c.steps) if (st.iv.size() != 16 || st.junk.size() != 16 || st.plain.size() < 16) { VR.cls("cbc.reuse.malformed_case_skipped"); return ok(); }
+    std::string what = "aes" + std::to_string(KEYSZ[c.type] * 8);
+    size_t k = c.steps.size();
+    VR.cls("cbc.reuse.messages=" + std::to_string(k));
+    if (c.dirs & 2) VR.cls("cbc.reuse.separate_decrypt_object");
+    if (c.dirs & 1) VR.cls("cbc.reuse.encrypt_only_object");
+    if (c.dirs & 4) VR.cls("cbc.reuse.same_object_both_directions");
+    ReuseObj E, D, S;
+    std::string dchain;                 // last block of the reference cipher text stream fed to D
+    std::vector<long> none;
+    for (size_t i = 0; i < k; i++) {
+        RStep const &st = c.steps[i];
+        std::string plain = st.plain.bytes(); plain.resize(plain.size() / 16 * 16);
+        size_t nb = plain.size() / 16;
+        std::string at = what + " how=" + std::to_string(c.how) + " message #" + std::to_string(i + 1) + " of " + std::to_string(k) + " (" + std::to_string(nb) + " blocks, " +
+                         std::to_string(st.plain.cuts.size() + 1) + " calls, op=" + std::to_string(i ? st.op : (st.op == 2 ? 2 : 1)) + ")";
+        bool definite = true;
+        // ---- encrypting side: E, and S which decrypts its own output straight away
+        for (int side = 0; side < 2; side++) {
+            ReuseObj &X = side ? S : E;
+            if (!(c.dirs & (side ? 4 : 1))) continue;
+            definite = X.prepare(st, i == 0, c.type, c.how, c.key);
+            V_CHECK(X.o.get() != 0, "cbc:not-available", at);
+            std::string ct = run_cbc(*X.o, true, plain, st.plain.cuts);
+            std::string iv_used;
+            if (definite) {
+                std::string ref = ref_cbc(c.type, true, c.key, st.iv, plain);
+                if (ct != ref) {
+                    bool stale = i > 0 && ct == ref_cbc(c.type, true, c.key, X.chain, plain);
+                    return bad(i == 0 ? "cbc:ciphertext-differs-from-standard" : stale ? "cbc:set_iv-ignored-by-used-encrypting-object" : "cbc:reused-object-ciphertext-differs-from-standard",
+                               at + (side ? " [object used for both directions]" : " [encrypt-only object]") + ": after set_iv(" + vr::hex(st.iv) + ") the cipher text is not AES-CBC(key,iv,message)" +
+                               (stale ? "; it is chained onto the previous message's last cipher block as if set_iv had not been called" : "") +
+                               "\n  cppcms: " + vr::hex(ct.substr(0, 32)) + "\n  EVP   : " + vr::hex(ref.substr(0, 32)));
+                }
+                iv_used = st.iv;
+            } else {
+                bool chained = ct == ref_cbc(c.type, true, c.key, X.chain, plain), restarted = ct == ref_cbc(c.type, true, c.key, X.configured, plain);
+                V_CHECK(chained || restarted, "cbc:continued-message-neither-chained-nor-restarted", at + ": no set_iv before this message; cipher text matches neither IV=previous cipher block nor IV=configured IV");
+                VR.cls(chained ? "cbc.reuse.continued=chained_to_previous_cipher_block" : "cbc.reuse.continued=restarted_from_configured_iv");
+                iv_used = chained ? X.chain : X.configured;
+            }
+            {   // any other node: fresh object, same key, the IV in force
+                std::unique_ptr<cr::cbc> F = make_cbc(c.type, c.how + 1);
+                F->set_key(cr::key(c.key.data(), c.key.size())); F->set_iv(iv_used.data(), iv_used.size());
+                V_CHECK(run_cbc(*F, false, ct, none) == plain, "cbc:fresh-object-cannot-decrypt-reused-object-output", at);
+            }
+            if (side) {
+                std::string back = run_cbc(*X.o, false, ct, st.plain.cuts);
+                V_CHECK(back == plain, "cbc:reused-object-does-not-decrypt-its-own-output", at + " first differing byte " + std::to_string(std::mismatch(back.begin(), back.end(), plain.begin()).first - back.begin()));
+            }
+            X.chain = ct.substr(ct.size() - 16);
+        }
+        // ---- the other node: a separate object that only decrypts, same history of set_iv calls, cipher text from the reference
+        if (c.dirs & 2) {
+            definite = D.prepare(st, i == 0, c.type, c.how, c.key);
+            V_CHECK(D.o.get() != 0, "cbc:not-available", at);
+            std::string ivd = definite ? st.iv : dchain;
+            std::string ct = ref_cbc(c.type, true, c.key, ivd, plain);
+            std::string back = run_cbc(*D.o, false, ct, st.plain.cuts);
+            if (definite) {
+                if (back != plain) {
+                    bool stale = i > 0 && back.substr(16) == plain.substr(16) && back.substr(0, 16) == xor16(plain.substr(0, 16), st.iv, dchain);
+                    return bad(i == 0 ? "cbc:decrypt-not-inverse" : stale ? "cbc:set_iv-ignored-by-used-decrypting-object" : "cbc:reused-object-decrypts-wrong",
+                               at + " [decrypt-only object]: after set_iv(" + vr::hex(st.iv) + ") the plain text of AES-CBC(key,iv,message) is not recovered" +
+                               (stale ? "; the first block was un-chained with the previous message's last cipher block as if set_iv had not been called" : "") +
+                               "\n  got     : " + vr::hex(back.substr(0, 32)) + "\n  expected: " + vr::hex(plain.substr(0, 32)));
+                }
+            } else {
+                V_CHECK(back.substr(16) == plain.substr(16), "cbc:reused-object-decrypts-wrong", at + " [decrypt-only object] blocks after the first");
+                bool chained = back.substr(0, 16) == plain.substr(0, 16), restarted = back.substr(0, 16) == xor16(plain.substr(0, 16), dchain, D.configured);
+                V_CHECK(chained || restarted, "cbc:continued-message-neither-chained-nor-restarted", at + " [decrypt-only object] first block");
+            }
+            dchain = ct.substr(ct.size() - 16);
+        }
+        if (i > 0) VR.cls(definite ? "cbc.reuse.set_iv_between" : "cbc.reuse.chain_continues");
+        if (i > 0 && (st.op == 2)) VR.cls("cbc.reuse.set_iv_twice");
+        if (i > 0 && (st.op == 3 || st.op == 4)) VR.cls("cbc.reuse.set_key_again_same_key");
+        if (!st.plain.cuts.empty() && nb > 1) VR.cls("cbc.reuse.message_in_several_calls");
+    }
+    if (E.refused + D.refused + S.refused) VR.cls("cbc.reuse.set_key_again_refused");
+    if (k >= 2) { vr::CaseWriter w; c.encode(w); VR.nontrivial(vr::fnv(w.str(), 166)); }
+    if (VR.want_sample()) {
+        std::string sm = "cbc-reuse " + what + " how=" + std::to_string(c.how) + " dirs=" + std::to_string(c.dirs) + " ops=[";
+        for (size_t i = 0; i < k; i++) sm += (i ? "," : "") + std::to_string(c.steps[i].op) + ":" + std::to_string(c.steps[i].plain.size() / 16) + "blk";
+        VR.sample(sm + "] every message == EVP with the IV in force, other objects decrypt");
+    }
+    return ok();
+}
+
 // ---- session cookie ciphers ------------------------------------------------------------------------------------
 struct KCase {
     int kind = 0;               // 0 hmac_cipher, 1 aes_cipher with explicit keys, 2 aes_factory with one combined key
@@ -604,6 +746,30 @@ static rc::Gen<CCase> gen_ccase(int maxblocks) {
         return c;
     });
 }
+static rc::Gen<RCase> gen_rcase() {
+    return rc::gen::exec([]() {
+        RCase c;
+        c.type = *vr::range<int>(0, 3); c.how = *vr::range<int>(0, 16);
+        c.dirs = *rc::gen::weightedElement<int>({{8, 7}, {1, 1}, {1, 2}, {1, 4}, {1, 3}, {1, 6}});
+        c.key = gen_bytes((int)KEYSZ[c.type]);
+        int k = *rc::gen::weightedElement<int>({{1, 1}, {5, 2}, {4, 3}, {2, 4}, {1, 5}, {1, 6}});
+        for (int i = 0; i < k; i++) {
+            RStep st;
+            st.op = i == 0 ? *rc::gen::weightedElement<int>({{3, 1}, {1, 2}}) : *rc::gen::weightedElement<int>({{3, 0}, {5, 1}, {2, 2}, {1, 3}, {1, 4}});
+            st.iv = (i > 0 && *vr::range<int>(0, 8) == 0) ? c.steps[i - 1].iv : gen_bytes(16);     // sometimes the same IV again
+            st.junk = gen_bytes(16);
+            int sel = *vr::range<int>(0, 10);
+            long nb = sel < 6 ? *vr::range<long>(1, 5) : sel < 9 ? *vr::range<long>(1, 17) : *vr::range<long>(17, 65);
+            if (nb <= 4 && *vr::range<int>(0, 2)) { st.plain.kind = 0; st.plain.lit = gen_bytes((int)nb * 16); }
+            else { st.plain.kind = *vr::range<int>(0, 4) ? 1 : 2; st.plain.len = nb * 16; st.plain.seed = *rc::gen::arbitrary<unsigned long long>(); }
+            int nc = *rc::gen::weightedElement<int>({{4, 0}, {3, 1}, {2, 2}, {1, 3}});
+            for (int j = 0; j < nc; j++) st.plain.cuts.push_back(*vr::range<long>(0, nb + 1));
+            std::sort(st.plain.cuts.begin(), st.plain.cuts.end());
+            c.steps.push_back(st);
+        }
+        return c;
+    });
+}
 static rc::Gen<KCase> gen_kcase() {
     return rc::gen::exec([]() {
         KCase c;
@@ -709,6 +875,20 @@ static void grid(Shard &sh) {
         VR.cls("grid.G6_cbc_all_block_counts");
         sh.good = vr::run_direct("cbc", c, p_cbc);
     }
+    // G9: cbc objects used for k = 2..4 messages: key size x way of creating the object x which later message is preceded by set_iv
+    // (once or twice; the others continue without) x which object lives through it (encrypt-only / decrypt-only / one for both)
+    for (int t = 0; t < 3 && sh.good; t++) for (int hv = 0; hv < 4 && sh.good; hv++) for (int k = 2; k <= 4 && sh.good; k++) for (int w = 1; w < k && sh.good; w++)
+        for (int op = 1; op <= 2 && sh.good; op++) for (int dir = 1; dir <= 4 && sh.good; dir <<= 1) {
+            if (!sh.mine()) continue;
+            RCase c; c.type = t; c.how = (hv & 1 ? 3 : 0) | (hv & 2 ? 8 : 0); c.dirs = dir; c.key = prng_msg(KEYSZ[t], 7000 + 10 * k + w).bytes();
+            for (int i = 0; i < k; i++) {
+                RStep st; st.op = i == 0 ? 1 : i == w ? op : 0; st.iv = prng_msg(16, 7100 + 16 * t + i).bytes(); st.junk = prng_msg(16, 7200 + i).bytes();
+                st.plain = prng_msg(16 * (1 + (i + w + k) % 3), 7300 + i + 8 * w); if (st.plain.len > 16 && (i & 1)) st.plain.cuts.push_back(1);
+                c.steps.push_back(st);
+            }
+            VR.cls("grid.G9_cbc_object_reuse_with_set_iv");
+            sh.good = vr::run_direct("cbcreuse", c, p_cbc_reuse);
+        }
     // G7: hex keys: every pair of characters (valid and invalid digits in either position)
     for (int x = 0; x < 256 && sh.good; x++) for (int y = 0; y < 256 && sh.good; y += (hexv((char)x) >= 0 ? 1 : 5)) {
         if (!sh.mine()) continue;
@@ -739,6 +919,7 @@ int main(int argc, char **argv) {
     props.push_back(vr::prop<CCase>("cbc", gen_ccase(vr::thorough() ? 4096 : 512), p_cbc));
     props.push_back(vr::prop<KCase>("cookie", gen_kcase(), p_cookie));
     props.push_back(vr::prop<YCase>("key", gen_ycase(), p_key));
+    props.push_back(vr::prop<RCase>("cbcreuse", gen_rcase(), p_cbc_reuse));
     props.push_back(vr::prop<UCase>("huge", rc::gen::map(vr::range<int>(0, 6), [](int i) { return huge_case(i); }), p_huge));
     if (vr::replay_arg(argc, argv)) return vr::rc_main(argc, argv, props);
     vr::install_crash_hooks();
